@@ -56,13 +56,16 @@ pub fn settings_for<R: Rng>(rng: &mut R, r: &PortableRegistry) -> SDesc {
     let mut k = 0;
     for _ in 0..rng.gen_range(0..=5) {
         let p = paths.choose(rng).unwrap().clone();
-        d.specific.push(SpecificDerive { path: p, derives: vec![format!("::s{k}::D")], attrs: if rng.gen_bool(0.4) { vec![format!("#[s{k}_attr]")] } else { vec![] }, recursive: false });
+        // a registration may consist of derives only, attributes only, or both
+        let attr_only = rng.gen_bool(0.25);
+        d.specific.push(SpecificDerive { path: p, derives: if attr_only { vec![] } else { vec![format!("::s{k}::D")] }, attrs: if attr_only || rng.gen_bool(0.4) { vec![format!("#[s{k}_attr]")] } else { vec![] }, recursive: false });
         k += 1;
     }
     for _ in 0..rng.gen_range(0..=4) {
         // sometimes the same path as a specific registration
         let p = if !d.specific.is_empty() && rng.gen_bool(0.3) { d.specific.choose(rng).unwrap().path.clone() } else { paths.choose(rng).unwrap().clone() };
-        d.specific.push(SpecificDerive { path: p, derives: vec![format!("::r{k}::D")], attrs: if rng.gen_bool(0.4) { vec![format!("#[r{k}_attr]")] } else { vec![] }, recursive: true });
+        let attr_only = rng.gen_bool(0.3);
+        d.specific.push(SpecificDerive { path: p, derives: if attr_only { vec![] } else { vec![format!("::r{k}::D")] }, attrs: if attr_only || rng.gen_bool(0.4) { vec![format!("#[r{k}_attr]")] } else { vec![] }, recursive: true });
         k += 1;
     }
     if rng.gen_bool(0.15) {
